@@ -1963,6 +1963,21 @@ def _b_reversed(I, args, kwargs, fr):
     return I.st.new_list(r, k)
 
 
+def _b_iter(I, args, kwargs, fr):
+    v = args[0]
+    if isinstance(v, (VList, VSeq)):
+        t, k = I.seq_term(v)
+        if t is None:
+            return I.st.new_list(None, None)
+        return I.st.new_list(t, k)          # an iterator: its own cursor over the items
+    if isinstance(v, VTuple):
+        return I._list_from_items(v.items)
+    h = I.spec_funcs.get('builtin_iter')
+    if h:
+        return h(I, args, kwargs, fr)
+    raise Unsupported('iter() of %r' % (v,))
+
+
 def _b_not_impl(name):
     def f(I, args, kwargs, fr):
         h = I.spec_funcs.get('builtin_' + name)
@@ -2018,7 +2033,7 @@ BUILTINS = {
     'next': _b_not_impl('next'), 'chain': _b_not_impl('chain'), 'sorted': _b_not_impl('sorted'),
     'set': _b_not_impl('set'), 'dict': _b_not_impl('dict'), 'enumerate': _b_not_impl('enumerate'),
     'time': _b_not_impl('time'), 'zip': _b_not_impl('zip'), 'sum': _b_not_impl('sum'),
-    'str': _b_not_impl('str'), 'iter': _b_not_impl('iter'), 'id': _b_not_impl('id'),
+    'str': _b_not_impl('str'), 'iter': _b_iter, 'id': _b_not_impl('id'),
     'hasattr': _b_not_impl('hasattr'), 'super': None, '__builtins__': None,
     'ValueError': None, 'KeyError': None, 'IndexError': None, 'TypeError': None,
     'RuntimeError': None, 'StopIteration': None, 'Exception': None, 'AssertionError': None,
